@@ -193,11 +193,15 @@ class StrSeq(object):
     __slots__ = ("parts",)
 
     def __init__(self, parts):
-        flat = []
+        items = []
         for p in parts:
             if isinstance(p, StrSeq):
-                flat.extend(p.parts)
-            elif isinstance(p, str):
+                items.extend(p.parts)
+            else:
+                items.append(p)
+        flat = []
+        for p in items:
+            if isinstance(p, str):
                 if p:
                     if flat and isinstance(flat[-1], str):
                         flat[-1] = flat[-1] + p
